@@ -148,3 +148,62 @@ def cell_writes(ff, out_param, ssize):
                 so = None if sp.off is None else sp.off + k * ssize
                 cells.setdefault(p.off // ssize + k, []).append({"const": None, "deps": set(cd) | {("mem", sp.root, so)}, "text": w["instr"].text[:100]})
     return cells, problems
+
+
+def loads_after_stores(ff, dst_param, src_params):
+    """Loads through any of `src_params` (or the destination itself) that may execute after a store through `dst_param`
+    (same block later in program order, or in a block reachable from a storing block).  Returns list of (load text, store text)."""
+    f = ff.f
+    store_pos = {}   # block -> index of first store to dst
+    load_pos = {}    # block -> list of (index, text)
+    first_store_text = {}
+    for lab in f.order:
+        for ins in f.blocks[lab]:
+            if ins.op == "store" or (ins.op in ("call", "invoke") and ("@llvm.mem" in ins.text)):
+                pass
+    for w in ff.writes():
+        roots = ir.flat_roots(w["prov"].root)
+        if ("param", dst_param) in roots:
+            b = w["instr"].block
+            if b not in store_pos or w["instr"].idx < store_pos[b]:
+                store_pos[b] = w["instr"].idx
+                first_store_text[b] = w["instr"].text[:90]
+    import re as _re
+    for lab in f.order:
+        for ins in f.blocks[lab]:
+            src = None
+            if ins.op == "load":
+                m = _re.match(r"^load (?:volatile )?(.*?), ptr (\S+?)(?:,|$| )", ins.text)
+                src = m.group(2) if m else None
+            elif ins.op in ("call", "invoke") and ("@llvm.memcpy" in ins.text or "@llvm.memmove" in ins.text):
+                args = ir.split_top(ff._call_args(ins.text))
+                src = ff._arg_value(args[1])
+            if src is None:
+                continue
+            p = ff.prov(src)
+            for r in ir.flat_roots(p.root):
+                if r[0] == "param" and (r[1] in src_params or r[1] == dst_param):
+                    load_pos.setdefault(lab, []).append((ins.idx, ins.text[:90]))
+    # reachability
+    reach = {}
+    for b in store_pos:
+        seen = set()
+        st = list(f.succ.get(b, []))
+        while st:
+            x = st.pop()
+            if x in seen:
+                continue
+            seen.add(x)
+            st.extend(f.succ.get(x, []))
+        reach[b] = seen
+    out = []
+    for b, si in store_pos.items():
+        for (li, lt) in load_pos.get(b, []):
+            if li > si:
+                out.append((lt, first_store_text[b]))
+        for rb in reach[b]:
+            for (li, lt) in load_pos.get(rb, []):
+                if rb == b and li <= si:
+                    continue
+                out.append((lt, first_store_text[b]))
+    return out
